@@ -121,7 +121,7 @@ Definition member_good (l : lang) (m : member) : bool :=
 Definition ckind_ok (l : lang) (k : ckind) : bool :=
   match l, k with
   | _, CPlain => true
-  | (Ts | Js), CExport => true
+  | (Ts | Js), (CExport | CExportDefault) => true
   | Ts, (CAbstract | CExportAbstract) => true
   | _, _ => false
   end.
